@@ -47,7 +47,7 @@ Finished == \A r \in DOMAIN prog.routines : ~Live(st, r)
 RtEqualsNrt == Finished =>
     LET n == NrtRun(prog, Main(Init0(prog), prog, "nrt", 1)) IN
     \A r \in DOMAIN prog.routines : Vals(st.out, r) = Vals(n.out, r)
-NrtMonotone ==
+NrtMonotone == TLCGet("level") = 1 =>      \* a property of the program alone: evaluated once per program
     LET n == NrtRun(prog, Main(Init0(prog), prog, "nrt", 1))
         o == ObsTimes(n.out) IN
     \A i \in 1..Len(o) - 1 : o[i].secs <= o[i + 1].secs
